@@ -116,10 +116,16 @@ Definition tria_nondeg (v : list V3) (ts : list tri) : Prop :=
 Lemma eps52_pos : 0 < eps52 Rops.
 Proof. unfold eps52, frac. cbn [div ofZ Rops]. lra. Qed.
 
+(* the guard replaces only an exactly vanishing value; it is inactive in particular above the machine epsilon *)
+Lemma fix_small_off thr repl x : Rltb x (eps52 Rops) = false -> fix_small Rops thr repl x = x.
+Proof.
+  intros H. apply Rltb_false in H. pose proof eps52_pos. unfold fix_small. cbn [eqb zero Rops].
+  destruct (Reqb x 0) eqn:E; [|reflexivity]. exfalso. revert E. unfold Reqb. destruct (Req_EM_T x 0); [lra|discriminate].
+Qed.
 Lemma tria_vols4_nondeg v ts : tria_nondeg v ts -> tria_vols4 Rops v ts = map (tria_vol4_raw Rops v) ts.
 Proof.
   intros H. unfold tria_vols4. rewrite map_map. apply map_ext_in. intros t Ht.
-  unfold tria_nondeg in H. rewrite Forall_forall in H. unfold fix_small. cbn [ltb Rops]. rewrite (H t Ht). reflexivity.
+  unfold tria_nondeg in H. rewrite Forall_forall in H. rewrite (fix_small_off _ _ _ (H t Ht)). reflexivity.
 Qed.
 
 Lemma tria_nondeg_NN v t1 t2 t3 : Rltb (tria_vol4_raw Rops v (t1, t2, t3)) (eps52 Rops) = false ->
@@ -252,8 +258,8 @@ Qed.
 (* on a non-degenerate mesh the volumes are the true 4*areas *)
 Lemma tria_vol4_fn_nondeg v ts t : tria_nondeg v ts -> In t ts -> tria_vol4_fn v ts t = tria_vol4_raw Rops v t.
 Proof.
-  intros H Ht. unfold tria_nondeg in H. rewrite Forall_forall in H. unfold tria_vol4_fn, fix_small. cbn [ltb Rops].
-  rewrite (H t Ht). reflexivity.
+  intros H Ht. unfold tria_nondeg in H. rewrite Forall_forall in H. unfold tria_vol4_fn.
+  rewrite (fix_small_off _ _ _ (H t Ht)). reflexivity.
 Qed.
 Lemma tria_vol4_raw_area v t1 t2 t3 :
   let '(p1, p2, p3) := tri_pts Rops v (t1, t2, t3) in tria_vol4_raw Rops v (t1, t2, t3) / 4 = tri_area p1 p2 p3.
